@@ -265,6 +265,9 @@ def monitor_case(ops, obs, which):
         if op == "crashcheck" and r == "ok" and o.get("ce") == "0":
             V("C06", "boundary-crash", f"killed after {ops[i-1].strip() if i > 0 else 'creation'}: the file as it is now reopens to a different arena than the running one (open: {o.get('cr')})", i)
             V("C05", "boundary-crash", f"killed after {ops[i-1].strip() if i > 0 else 'creation'}: the file as it is now reopens to a different arena than the running one (open: {o.get('cr')})", i)
+            if fstate.get("truncated"):
+                V("C18", "file-lags-after-truncate", f"after a truncate of this file-backed arena the file is no longer the arena: reopening it as it is now gives a different state (open: {o.get('cr')})", i)
+                V("C15", "file-lags-after-truncate", f"after a truncate of this file-backed arena the file is no longer the arena: reopening it as it is now gives a different state (open: {o.get('cr')})", i)
         if op == "close" and r == "ok":
             fstate["closed"] = True
             if fstate["mode"] in (None, "mut"):   # only a shared writable session leaves its state in the file
@@ -291,20 +294,21 @@ def monitor_case(ops, obs, which):
             fstate["before_close"] = None; dead.clear()
         if op in ("mutate_file", "truncate_file", "random_file", "delete_file") and r == "ok":
             fstate["tampered"] = True   # the file was changed behind the arena's back: no claim about what a later open finds in it
-            reserved = int(cfg.get("reserved", "0"))
+            reserved = int(cfg.get("reserved", "0")) + int(cfg.get("offset", "0"))   # position in the FILE
+            fdoff = doff + int(cfg.get("offset", "0"))
             if op == "mutate_file" and o.get("fh") != fstate["last_fh"]:
                 I = int(t[1])
                 if reserved + 1 <= I < reserved + 8:
                     fstate["badfile"] = True
                     fstate["kind_ok_ro"] = (I == reserved + 1 and int(t[2]) in (0, 1, 2))
-                elif I < doff:
+                elif I < fdoff:
                     pass
-            if op == "truncate_file" and int(t[1]) < doff:
+            if op == "truncate_file" and int(t[1]) < fdoff:
                 fstate["badfile"] = True; fstate["kind_ok_ro"] = False
             if op in ("random_file", "delete_file"):
                 fstate["badfile"] = None   # unknown validity
                 # ... except that a file shorter than the arena prefix can never be valid
-                if op == "random_file" and o.get("flen", "none").isdigit() and int(o["flen"]) < doff:
+                if op == "random_file" and o.get("flen", "none").isdigit() and int(o["flen"]) < fdoff:
                     fstate["badfile"] = True; fstate["kind_ok_ro"] = False
             fstate["last_fh"] = o.get("fh")
         if op == "reopen":
@@ -337,7 +341,7 @@ def monitor_case(ops, obs, which):
                         V("C05", "identity-differs", f"after {ops[i].strip()}: doff/mv/fk = {o.get('doff')}/{o.get('mv')}/{o.get('fk')}", i)
                     if o.get("ro") != ("1" if ro_mode else "0"):
                         V("C09", "ro-flag", f"{ops[i].strip()}: read_only() = {o.get('ro')}", i)
-                fstate["closed"] = False; fstate["mode"] = mode; fstate["fh_open"] = o.get("fh"); fstate["magic"] = kvs.get("magic"); fstate["remove"] = False
+                fstate["closed"] = False; fstate["mode"] = mode; fstate["fh_open"] = o.get("fh"); fstate["magic"] = kvs.get("magic"); fstate["remove"] = False; fstate["truncated"] = False
                 if not ro_mode and kvs.get("freelist") in ("none", "opt", "pess"):
                     kind = kvs["freelist"]   # the policy this arena value was configured with
                 fstate["dead_at_open"] = list(dead)
@@ -643,6 +647,7 @@ def monitor_case(ops, obs, which):
         if op == "truncate" and r == "ok" and fstate.get("ro_state") and not fstate["closed"]:
             V("C18", "ro-truncate-accepted", f"{ops[i].strip()} -> ok on a read-only arena", i)
         if op == "truncate" and r == "ok":
+            fstate["truncated"] = True
             n_ = int(t[1])
             if cp != max(n_, pal) or (al, di, o.get("fl"), o.get("ms"), o.get("ma")) != (pal, pdi, prev.get("fl"), prev.get("ms"), prev.get("ma")):
                 V("C18", "truncate", f"truncate {n_}: cp={cp} (expected {max(n_, pal)}), al/di/fl/ms/ma {(al, di, o.get('fl'), o.get('ms'), o.get('ma'))} vs before {(pal, pdi, prev.get('fl'), prev.get('ms'), prev.get('ma'))}", i)
